@@ -270,7 +270,8 @@ pub fn bar_hidden(_args: &[String]) -> String {
 pub fn multi_order(_args: &[String]) -> String {
     std::panic::set_hook(Box::new(|_| {}));
     let mut tried = 0u64;
-    // op codes: 0 add, 1 insert(0), 2 insert(1), 3 insert_from_back(0), 4 insert_from_back(1), 5 insert_before(first), 6 insert_after(first), 7 remove(first), 8 remove(last)
+    // op codes: 0 add, 1 insert(0), 2 insert(1), 3 insert_from_back(0), 4 insert_from_back(1), 5 insert_before(first), 6 insert_after(first), 7 remove(first), 8 remove(last),
+    // 9 add / insert / insert_after a bar that is already a member
     for a in 0..10 {
         for b in 0..10 {
             for c in 0..10 {
@@ -281,11 +282,6 @@ pub fn multi_order(_args: &[String]) -> String {
                     let mut hist: Vec<String> = vec![];
                     let mut n = 0;
                     for (step, op) in [0usize, a, b, c, d].into_iter().enumerate() {
-                        // re-adding a member keeps an invisible slot behind in the real code, which shifts later index-based
-                        // inserts: the routine only looks at the frame right after a re-add, as the last operation
-                        if op == 9 && step != 4 {
-                            continue;
-                        }
                         let name = format!("bar{}", n);
                         let mkbar = || {
                             let pb = ProgressBar::new(10);
@@ -300,7 +296,15 @@ pub fn multi_order(_args: &[String]) -> String {
                             6 if !order.is_empty() => { let pb = mp.insert_after(&order[0].1, mkbar()); pb.set_message(name.clone()); order.insert(1, (name.clone(), pb)); n += 1; hist.push("insert_after(first)".into()); }
                             7 if !order.is_empty() => { let (_, pb) = order.remove(0); mp.remove(&pb); hist.push("remove(first)".into()); }
                             8 if !order.is_empty() => { let (_, pb) = order.pop().unwrap(); mp.remove(&pb); hist.push("remove(last)".into()); }
-                            9 if order.len() >= 2 => { let (nm, pb) = order.remove(0); let pb2 = mp.add(pb.clone()); drop(pb); order.push((nm, pb2)); hist.push("add(first bar again)".into()); }
+                            // "Adding a progress bar that is already a member of the MultiProgress will have no effect"
+                            9 if order.len() >= 2 => {
+                                let pb = order[0].1.clone();
+                                match step % 3 {
+                                    0 => { let _ = mp.add(pb); hist.push("add(first bar again)".into()); }
+                                    1 => { let _ = mp.insert(1, pb); hist.push("insert(1, first bar again)".into()); }
+                                    _ => { let last = order[order.len() - 1].1.clone(); let _ = mp.insert_after(&last, pb); hist.push("insert_after(last, first bar again)".into()); }
+                                }
+                            }
                             _ => continue,
                         }
                         if order.is_empty() {
